@@ -6,7 +6,8 @@ from oracles import mapping_o as M
 from props._util import rng_for, run_cases
 
 LEVEL = "other"
-DEDUCTIVE = []
+DEDUCTIVE = [{"module": "rnapolis.tertiary", "sidecar": "contracts.mapping_c",
+              "targets": ["Mapping2D3D.__generate_bpseq"]}]
 TRUSTED = ["CPython 3.12", "the MILP path of BpSeq.dot_bracket (C02)"]
 ASSUMPTIONS = ["pair lists name nucleotide residues; self pairs are not generated; Saenger labels are a function of (bases, class) within one list"]
 EXPLANATION = "see DESIGN.md 4/C06"
